@@ -218,3 +218,102 @@ func (fr *frame) nativeSprintf(c *ssa.CallCommon, st *State) *Val {
 	}
 	return &Val{t: fr.defSort("sprintf", "String", "(str.++ "+strings.Join(parts, " ")+")")}
 }
+
+// slicesFunc: the name of the function of package slices that fn is (an instantiation of), or "".
+func slicesFunc(fn *ssa.Function) string {
+	o := fn
+	if fn.Origin() != nil {
+		o = fn.Origin()
+	}
+	if o.Pkg == nil || o.Pkg.Pkg == nil || o.Pkg.Pkg.Path() != "slices" {
+		return ""
+	}
+	return o.Name()
+}
+
+// nativeSlices gives slices.Contains / ContainsFunc / Index / IndexFunc their meaning (first position at which the
+// element equals v / satisfies the side-effect-free predicate f, -1 if none), so that a hand-written search loop and
+// the library call are the same to the verifier. Returns nil when the call is not one of them or cannot be modelled.
+func (fr *frame) nativeSlices(fn *ssa.Function, c *ssa.CallCommon, args []*Val, st *State, reach string) *Val {
+	name := slicesFunc(fn)
+	if name == "" || c == nil || len(args) != 2 || len(c.Args) != 2 {
+		return nil
+	}
+	sl, ok := c.Args[0].Type().Underlying().(*types.Slice)
+	if !ok {
+		return nil
+	}
+	u := fr.u
+	s := u.sorts
+	et := sl.Elem()
+	es := s.sortOf(et)
+	h := u.heapGet(st, "E:"+s.typeKey(et), "(Array Int (Array Int "+es+"))")
+	sv := fr.valTerm(args[0], st)
+	elem := func(k string) string {
+		return fmt.Sprintf("(%s (select %s (s-arr %s)) %s %s)", s.atFn(et), h, sv, sv, k)
+	}
+	var pred func(k string) (string, bool)
+	switch name {
+	case "Contains", "Index":
+		if _, basic := et.Underlying().(*types.Basic); !basic {
+			if _, ptr := et.Underlying().(*types.Pointer); !ptr {
+				return nil
+			}
+		}
+		v := fr.valTerm(args[1], st)
+		pred = func(k string) (string, bool) { return fmt.Sprintf("(= %s %s)", elem(k), v), true }
+	case "ContainsFunc", "IndexFunc":
+		f := args[1]
+		if f.fn == nil {
+			return nil
+		}
+		if ms := u.eng.modsetOf(f.fn); len(ms) > 0 {
+			return nil // a predicate with effects is not a predicate: not modelled
+		}
+		pred = func(k string) (string, bool) {
+			nf := u.newFrame(f.fn, fr.depth+1, true, fr.prefix)
+			nf.binders = fr.binders + 1
+			nf.preState = fr.preState
+			var lets [][2]string
+			nf.lets = &lets
+			okRun := true
+			var res []*Val
+			func() {
+				defer func() {
+					if r := recover(); r != nil {
+						okRun = false
+					}
+				}()
+				res, _, _ = nf.run([]*Val{{t: elem(k)}}, f.bindings, st, "true")
+			}()
+			if !okRun || len(res) == 0 || res[0].t == "" {
+				return "", false
+			}
+			body := res[0].t
+			for i := len(lets) - 1; i >= 0; i-- {
+				body = fmt.Sprintf("(let ((%s %s)) %s)", lets[i][0], lets[i][1], body)
+			}
+			return body, true
+		}
+	default:
+		return nil
+	}
+	k := u.fresh("k")
+	pk, ok := pred(k)
+	if !ok {
+		return nil
+	}
+	inRange := fmt.Sprintf("(and (<= 0 %s) (< %s (s-len %s)))", k, k, sv)
+	if name == "Contains" || name == "ContainsFunc" {
+		return &Val{t: fmt.Sprintf("(exists ((%s Int)) (and %s %s))", k, inRange, pk)}
+	}
+	if fr.binders > 0 {
+		return nil // an index is introduced by a declaration, which a quantifier body cannot hold
+	}
+	r := u.declare("index", "Int")
+	pr, _ := pred(r)
+	u.assume(reach, fmt.Sprintf("(and (<= (- 1) %s) (< %s (s-len %s)))", r, r, sv))
+	u.assume(reach, fmt.Sprintf("(=> (>= %s 0) %s)", r, pr))
+	u.assume(reach, fmt.Sprintf("(forall ((%s Int)) (=> (and %s (or (< %s %s) (= %s (- 1)))) (not %s)))", k, inRange, k, r, r, pk))
+	return &Val{t: r}
+}
